@@ -3,6 +3,7 @@ package main
 import (
 	"go/token"
 	"go/types"
+	"strconv"
 	"strings"
 
 	"golang.org/x/tools/go/ssa"
@@ -12,11 +13,10 @@ func init() {
 	register(&propCheck{
 		id:    "C02",
 		level: "other",
-		explanation: "The two structural halves of the zip-slip defence, decided on SSA for every path of the extraction code: (X1) sanitise-before-sink — every path argument of a mutating filesystem call in the call graph of (*VFS).unzip (MkDir, OpenFile for writing, Chtimes, Rm, the destination of the nested unzip, the keys of the directory time-stamp map) belongs to the least set D containing the caller's destination after filepath.Clean, result #0 of sanitiseZipExtractPath on its err==nil side, filepath.Dir(d), Join(Dir(d), FilepathStem(d)), determineUnzippedFilepath(d) for d in D, and parameters of unexported callees all of whose call sites pass members of D; anything else reaching a sink (typically something derived from zip.File.Name) is reported with the offending value; (X2) the sanitiser accepts only contained paths — every non-error return of sanitiseZipExtractPath lies on the true side of a containment predicate on p = filepath.Join(destination, name): p == destination or strings.HasPrefix(p, destination + separator), and returns that p; (X3) its refusal carries the 'suspected malicious intent' kind and unzip hands that error back unchanged. Nothing is executed. Not decided: that Join+HasPrefix implies containment for every byte string (assumed: filepath.Join cleans), symlinks already present in the destination, whether charset transcoding can introduce separators (assumption recorded).",
+		explanation: "The two structural halves of the zip-slip defence, decided on SSA for every path of the extraction code: (X1) sanitise-before-sink — every path argument of a mutating filesystem call in the call graph of (*VFS).unzip (MkDir, OpenFile for writing, Chtimes, Rm, the destination of the nested unzip, the keys of the directory time-stamp map) belongs to the least set D containing the caller's destination after filepath.Clean, result #0 of sanitiseZipExtractPath on its err==nil side, filepath.Dir(d), Join(Dir(d), FilepathStem(d)), determineUnzippedFilepath(d) for d in D provided X4 holds, and parameters of unexported callees all of whose call sites pass members of D; anything else reaching a sink (typically something derived from zip.File.Name) is reported with the offending value; (X2) the sanitiser accepts only contained paths — every non-error return of sanitiseZipExtractPath lies on the true side of a containment predicate on p = filepath.Join(destination, name): p == destination or strings.HasPrefix(p, destination + separator), and returns that p; (X4) the transcoder applied after sanitisation keeps a path in its directory — it returns its argument, or the argument's directory joined with the converted last element, that element having been tested to be a single path element other than '..'; (X3) its refusal carries the 'suspected malicious intent' kind and unzip hands that error back unchanged. Nothing is executed. Not decided: that Join+HasPrefix implies containment for every byte string (assumed: filepath.Join cleans), symlinks already present in the destination, whether charset transcoding can introduce separators (assumption recorded).",
 		run:   runC02,
 		assumptions: []string{
 			"filepath.Join returns a cleaned path, so a cleaned path with prefix destination+separator is inside destination",
-			"transcoding a non-UTF-8 path to UTF-8 (determineUnzippedFilepath) does not introduce '/' or '..' sequences: trail bytes of the detectable multi-byte charsets exclude 0x2E and 0x2F",
 			"no symbolic link inside the destination points outside it before the extraction starts",
 		},
 	})
@@ -57,6 +57,7 @@ type c02State struct {
 	sanitise *ssa.Function
 	determ   *ssa.Function
 	unzip    *ssa.Function
+	determOK bool
 	memo     map[ssa.Value]int // 1 in D, 2 not, 3 in progress
 	why      map[ssa.Value]string
 }
@@ -118,6 +119,10 @@ func (s *c02State) inD0(v ssa.Value, at ssa.Instruction) bool {
 			return s.inD(cl.Call.Args[2], cl)
 		}
 		if g == s.determ && x.Index == 0 {
+			if !s.determOK {
+				s.why[v] = "determineUnzippedFilepath does not keep its argument inside the directory it names (X4)"
+				return false
+			}
 			return s.inD(cl.Call.Args[0], cl)
 		}
 		return false
@@ -253,9 +258,103 @@ func (s *c02State) mapKeysInD(m ssa.Value) bool {
 	return true
 }
 
+// checkTranscoder (X4). Transcoding runs after sanitisation, on a member of D. It may only replace the last
+// element of the path, by something that is itself a single element: converting the whole path re-encodes the
+// destination too (a destination "josé" becomes "josÃ©": the file is created next to the destination, not in it),
+// and a converted name that is not re-examined can become ".." or contain a separator.
+func (s *c02State) checkTranscoder() {
+	c, f := s.c, s.determ
+	c.FuncsSeen[fname(f)] = true
+	key := fname(f) + "/stays-in-directory"
+	p := f.Params[0]
+	bad, pos := "", c.pos(f.Pos())
+	n := 0
+	allInstrs(f, func(in ssa.Instruction) {
+		r, ok := in.(*ssa.Return)
+		if !ok || isErrorExit(f, r) || bad != "" {
+			return
+		}
+		n++
+		v := resolveValue(r.Results[0])
+		if v == ssa.Value(p) {
+			return
+		}
+		pos = c.ipos(r)
+		cl, isCall := v.(*ssa.Call)
+		if !isCall || calleeFull(&cl.Call) != "path/filepath.Join" {
+			what := v.String()
+			if ex, isEx := v.(*ssa.Extract); isEx {
+				if tc, isTC := ex.Tuple.(*ssa.Call); isTC {
+					what = "the result of " + calleeFull(&tc.Call)
+				}
+			} else if isCall {
+				what = "the result of " + calleeFull(&cl.Call)
+			}
+			bad = "the path returned is " + what + " applied to the whole path, destination included: the destination prefix established by the sanitiser is not preserved (a destination with non-ASCII characters is re-encoded and the file lands outside it)"
+			return
+		}
+		el := variadicElems(cl.Call.Args[0])
+		if len(el) != 2 {
+			bad = "the path returned is a Join of " + strconv.Itoa(len(el)) + " elements"
+			return
+		}
+		dirOK := false
+		switch d := resolveValue(el[0]).(type) {
+		case *ssa.Extract:
+			if tc, isTC := d.Tuple.(*ssa.Call); isTC && d.Index == 0 && calleeFull(&tc.Call) == "path/filepath.Split" && resolveValue(tc.Call.Args[0]) == ssa.Value(p) {
+				dirOK = true
+			}
+		case *ssa.Call:
+			if calleeFull(&d.Call) == "path/filepath.Dir" && resolveValue(d.Call.Args[0]) == ssa.Value(p) {
+				dirOK = true
+			}
+		}
+		if !dirOK {
+			bad = "the first element of the path returned is not the directory of the argument"
+			return
+		}
+		e := el[1]
+		same := func(a ssa.Value) bool { return a == e || sameValue(a, e) || resolveValue(a) == resolveValue(e) }
+		isBaseOfE := func(a ssa.Value) bool {
+			bc, ok := a.(*ssa.Call)
+			return ok && calleeFull(&bc.Call) == "path/filepath.Base" && same(bc.Call.Args[0])
+		}
+		elementTest := func(op token.Token) func(ssa.Value) bool {
+			return func(v ssa.Value) bool {
+				b, ok := v.(*ssa.BinOp)
+				return ok && b.Op == op && ((same(b.X) && isBaseOfE(b.Y)) || (same(b.Y) && isBaseOfE(b.X)))
+			}
+		}
+		dotdot := func(v ssa.Value) bool {
+			b, ok := v.(*ssa.BinOp)
+			if !ok || b.Op != token.EQL {
+				return false
+			}
+			sx, okx := constString(b.X)
+			sy, oky := constString(b.Y)
+			return (same(b.X) && oky && sy == "..") || (same(b.Y) && okx && sx == "..")
+		}
+		single := onBoolSide(r, false, elementTest(token.NEQ)) || onBoolSide(r, true, elementTest(token.EQL))
+		if !single {
+			bad = "the converted name joined to the directory has not been found equal to its own filepath.Base: conversion can yield a name with a separator in it"
+			return
+		}
+		if !onBoolSide(r, false, dotdot) {
+			bad = "the converted name joined to the directory can be \"..\" (no test excludes it): the path then resolves to the parent of the sanitised directory"
+			return
+		}
+	})
+	if n == 0 {
+		bad = "no successful return found"
+	}
+	s.determOK = bad == ""
+	c.check(bad == "", "X4", key, pos, "returns its argument, or its directory joined with a converted name tested to be a single element other than \"..\"", bad)
+}
+
 func runC02(c *Ctx) {
 	c.rule("X1", "every path argument of a mutating filesystem call in the extraction call graph belongs to D (derived from the sanitiser's accepted result or the caller's cleaned destination)", 6)
 	c.rule("X2", "every accepting return of sanitiseZipExtractPath is on the true side of a containment predicate over filepath.Join(destination, name) and returns that joined path", 2)
+	c.rule("X4", "the transcoder of non-UTF-8 names keeps a sanitised path in its directory: it returns its argument, or Join(directory of the argument, converted name) where the converted name was found to be a single path element (equal to its own filepath.Base, not \"..\")", 1)
 	c.rule("X3", "the sanitiser refuses with the ErrMalicious kind; unzip returns the sanitiser's error unchanged", 2)
 
 	st := &c02State{c: c, memo: map[ssa.Value]int{}, why: map[ssa.Value]string{}}
@@ -265,6 +364,7 @@ func runC02(c *Ctx) {
 	if st.sanitise == nil || st.determ == nil || st.unzip == nil {
 		return
 	}
+	st.checkTranscoder()
 	// extraction call graph: unzip + unexported package functions it reaches
 	reach := c.reachable([]*ssa.Function{st.unzip}, false, func(g *ssa.Function) bool {
 		if !inPkg(fsPkgRel)(g) {
